@@ -203,7 +203,7 @@ PROPS = {
     "C12": {
         "harness": "c12", "level": "proof", "category": "proof", "design_ref": "DESIGN.md 5/C12", "translators": ["kernels"],
         "technique": "Lean 4 proof (refinement: high-memory applier = low-memory applier under the in_graph invariant, lifted through the whole descent loop) "
-                     "+ refinement theorem over the regenerated Lean translation of apply_graph_updates_low_memory's source (every input; memory safety included) "
+                     "+ refinement theorems over the regenerated Lean translations of both update appliers' source (every input; memory safety included) "
                      "+ bit-exact correspondence of both appliers + API equality of both modes",
         "text": "Lean theorems applyHigh_eq_applyLow (graph AND change count, any thread count, any truthful update list, under the invariant that a "
                 "recorded candidate is one the heap would reject) and descent_low_eq_high (the whole modelled nn_descent returns identical rows and "
@@ -218,29 +218,45 @@ PROPS = {
                 "(updsOf updates), where updsOf concatenates the blocks in order and drops the (-1) placeholders; kernel_low_memory_thread_count_irrelevant: "
                 "two runs of the translated kernel with any two positive thread counts return the same graph and count (= the sequential application); "
                 "kernel_low_memory_eq_high_memory: under heap order + true distances + valid in_graph record + truthful updates of a symmetric distance the "
-                "translated low-memory kernel's graph and count are those of the modelled high-memory applier. A change to the applier or to the push "
+                "translated low-memory kernel's graph and count are those of the modelled high-memory applier; "
+                "kernel_apply_graph_updates_high_memory_refines: the translated apply_graph_updates_high_memory (in_graph, a list of sets used only "
+                "through `x in in_graph[r]` and `in_graph[r].add(x)`, is translated as Array (List Int) - add conses, in is list membership - which "
+                "is the model's InGraph) never leaves an array (one set per row, fuel >= #blocks + max block length + k + 2) and returns exactly the "
+                "model's record, change count and graph applyHigh (zipGraph ..) (updsOf updates) in_graph; kernel_high_memory_eq_low_memory: C12's "
+                "statement on BOTH regenerated kernels - under heap order + true distances + valid record + truthful updates of a symmetric distance "
+                "the translated high-memory and the translated low-memory applier (any positive thread count) return the same graph and the same count, "
+                "and the record invariant holds again. A change to the applier or to the push "
                 "changes the generated definitions and these proofs stop building. Both real appliers are compared bit-for-bit with the model on the "
-                "same update lists (self pairs, repeats, 1..16 threads) and with each other, and the translated low-memory applier is executed by the "
-                "driver (gk_apply) on the same graphs and update blocks and compared bit for bit with the numba kernel (translator validation); real "
+                "same update lists (self pairs, repeats, 1..16 threads) and with each other, and both translated appliers are executed by the "
+                "driver (gk_apply, gk_apply_high) on the same graphs and update blocks and compared bit for bit (graph, count, and for the high-memory "
+                "path the final in_graph sets) with the numba kernels (translator validation); real "
                 "indexes built with low_memory=True and False must have identical neighbor_graph arrays, search graphs and answers (dense, CSR, bit-packed)",
-        "note": TB + "the translator harness/translate_kernels.py for apply_graph_updates_low_memory and checked_flagged_heap_push (syntax-directed; prange read as "
-                     "range - that the threads' writes do not interfere is C05's obligation; validated on every run by executing its output against the numba "
-                     "kernel); the sampled bit-exact correspondence of model and kernel for apply_graph_updates_high_memory and the rest of nn_descent; "
+        "note": TB + "the translator harness/translate_kernels.py for apply_graph_updates_low_memory, apply_graph_updates_high_memory and "
+                     "checked_flagged_heap_push (syntax-directed; prange read as range - that the threads' writes do not interfere is C05's obligation; a "
+                     "numba set is read as the list of elements added to it, only `in` and `add` are translated; validated on every run by executing its "
+                     "output against the numba kernels); the sampled bit-exact correspondence of model and kernels for the rest of nn_descent; "
                      "symmetric NaN-free distance",
         "explanation": "refinement theorem for all configurations + generated-kernel = model theorem for the low-memory applier + kernel correspondence + API equality",
         "assumptions": COMMON_ASSUMPTIONS + ["symmetric distance function",
                                              "update triples name existing rows or carry the -1 placeholder (generate_graph_updates emits row numbers only)"],
     },
     "C13": {
-        "harness": "c13", "level": "proof", "category": "proof", "design_ref": "DESIGN.md 5/C13", "translators": [],
-        "technique": "Lean 4 proof (order statistics of every row are non-increasing under every kernel, by induction over the op sequence) + bit-exact correspondence + rank-wise API comparisons",
+        "harness": "c13", "level": "proof", "category": "proof", "design_ref": "DESIGN.md 5/C13", "translators": ["kernels"],
+        "technique": "Lean 4 proof (order statistics of every row are non-increasing under every kernel, by induction over the op sequence) + refinement theorem over the regenerated Lean translation of init_from_neighbor_graph's source + bit-exact correspondence + rank-wise API comparisons",
         "text": "Lean theorems push_rank_le / descent_rank_le / iteration_rank_le: for every threshold t the number of entries of every row within t "
                 "never decreases under any push, any update application, any initialisation kernel, any iteration and the final sort, for arbitrary "
                 "graphs and update lists (no invariant needed), i.e. the j-th smallest distance of every row is non-increasing; reinsert_eq: re-pushing "
-                "a well-formed row reproduces it (update() starts from the old lists). The real nn_descent is run from supplied heaps and compared "
+                "a well-formed row reproduces it (update() starts from the old lists). For init_from_neighbor_graph the tie between model and code is a "
+                "theorem: harness/translate_kernels.py re-translates its source (and checked_flagged_heap_push's) into Lean on every run and "
+                "kernel_init_from_neighbor_graph_refines proves that for every rectangular heap (n rows of k >= 1 slots), m <= n rows of w entries in "
+                "indices / distances and fuel >= m + w + k + 2 the translated kernel never leaves an array and returns, row for row, the model's "
+                "initFromNeighborGraph; kernel_update_reinsert: run on make_heap(n', k)'s arrays with the index / distance arrays of a well-formed old "
+                "graph, the translated kernel returns every old row as the same multiset of (index, distance) pairs and leaves the appended rows "
+                "empty; the translation is executed by the driver (gk_initnbr) against the numba kernel on every generated case. The real nn_descent is run from supplied heaps and compared "
                 "rank-wise (exact) and with the model; at API level init_graph (with -1 holes, +-init_dist) vs result, n_iters=t vs t+1, and "
                 "neighbor_graph before vs after update(xs_fresh) are compared rank-wise",
-        "note": TB + "the sampled bit-exact correspondence; reported (corrected) distances are compared at API level, monotonicity of corrections is C09",
+        "note": TB + "the translator harness/translate_kernels.py for init_from_neighbor_graph and checked_flagged_heap_push (validated by executing its "
+                     "output against numba on every run); the sampled bit-exact correspondence for the other kernels; reported (corrected) distances are compared at API level, monotonicity of corrections is C09",
         "explanation": "monotonicity theorem for all op sequences + kernel correspondence + rank-wise API comparisons",
         "assumptions": COMMON_ASSUMPTIONS,
     },
@@ -318,11 +334,18 @@ PROPS = {
     },
     "C02": {
         "harness": "c02", "level": "proof", "category": "proof", "design_ref": "DESIGN.md 5/C02, 4.5, Appendix E (Query), 6 (D4, D5)",
-        "translators": [],
+        "translators": ["kernels"],
         "technique": "Lean 4 proof (invariants over the elementary state changes of the graph search: visited-table discipline => "
                      "simple_heap_push never sees a vertex twice; termination measure; translation lemmas) + bit-exact differential "
                      "correspondence of the numba search_closure + property predicate on the real query() output",
-        "text": "Lean theorems search_sound, search_terminates, search_fuel_irrelevant, seeds_distinct, popMin_least, translate_sentinel, "
+        "text": "For the visited table the tie between model and code is a theorem: harness/translate_kernels.py re-translates utils.has_been_visited and "
+                "utils.mark_visited (one bit per vertex in a byte array; >>, <<, &, | on non-negative ints through Nat, a negative operand is `none`) "
+                "on every run and kernel_has_been_visited_refines / kernel_mark_visited_refines prove that for every table of non-negative bytes and "
+                "every vertex whose byte exists the translated kernels stay inside the table, has_been_visited answers non-zero iff the model's "
+                "Array Bool table (visOf table) says visited, and mark_visited sets exactly that bit (visOf table' = mark (visOf table) c) and keeps "
+                "bytes bytes; kernel_visited_out_of_table: a vertex beyond the table is read out of bounds (the (n // 8) + 1 allocation is what "
+                "keeps c < n inside); the translations are executed by the driver (gk_visited, gk_mark) against the numba kernels on random byte "
+                "tables on every run. Lean theorems search_sound, search_terminates, search_fuel_irrelevant, seeds_distinct, popMin_least, translate_sentinel, "
                 "translate_truth, translate_injective, query_sound, batch_rows_independent, batch_sound, skipped_row about a literal model "
                 "of one iteration of search_closure (result heap via simple_heap_push, heapq seed set on (d, vertex) tuples, visited table, "
                 "leaf + min(k, n_neighbors) - |leaf| random candidates, (1+eps) bound recomputed after every push, strict '<' tests, "
@@ -442,10 +465,10 @@ PROPS = {
             "dense and sparse metric kernels return the same value for the same pair of points (sampled bit for bit; C08 is the property about it)"],
     },
     "C16": {
-        "harness": "c16", "level": "proof", "category": "proof", "design_ref": "DESIGN.md 5/C16, 4.3, App. E, App. G, notes D9/D19", "translators": [],
-        "technique": "Lean 4 proof about a literal model of degree_prune_internal and an executable stage-by-stage model of _init_search_graph "
+        "harness": "c16", "level": "proof", "category": "proof", "design_ref": "DESIGN.md 5/C16, 4.3, App. E, App. G, notes D9/D19", "translators": ["searchgraph"],
+        "technique": "tie BY THEOREM for degree_prune_internal: its source text is translated to Lean on every run (harness/translate_searchgraph.py -> Gen/SearchGraphKernels.lean; np.sort an uninterpreted parameter assumed to sort) and the translation is proved memory safe and equal to the model degreePrune row by row (kernel_degree_prune_internal_refines); the translator is validated by executing its output against numba bit for bit. Lean 4 proof about a literal model of degree_prune_internal and an executable stage-by-stage model of _init_search_graph "
                      "+ bit-exact kernel correspondence + end-to-end edge-set prediction of the real _search_graph + API-level predicate",
-        "text": "Lean theorems prune_bound (for m >= 1 fewer than m kept entries are strictly shorter than the cut, every kept entry is <= cut, every "
+        "text": "TIE TO THE CODE by theorem for degree_prune_internal (regenerated from pynndescent_.py on every run: prange as range, the read-only row view data[indptr[i]:indptr[i+1]] as a copy - rejected if it could be loaded after a store -, np.sort the uninterpreted SortFn.sortArr): kernel_degree_prune_internal_refines - for every well-formed CSR (row pointers non-negative, non-decreasing, within data), max_degree >= 1, every sort function that returns the ascending rearrangement (sort_hypothesis_of_ascending_perm: any ascending permutation is it) and fuel >= len(indptr)+len(data)+2, the translated kernel performs no out-of-bounds load or store and every output row is the model's degreePrune 0 m of the input row (entries > np.sort(row)[m-1] become 0.0); kernel_degree_prune_bound restates prune_bound / prune_keeps_min on the translated kernel. Lean theorems prune_bound (for m >= 1 fewer than m kept entries are strictly shorter than the cut, every kept entry is <= cut, every "
                 "non-zero entry <= cut is kept), prune_keeps_min, prune_subset about degree_prune_internal for every row and linear order; "
                 "searchGraph_no_self_loops (square, no diagonal), searchGraph_subgraph (every edge joins two points of which one lists the other) "
                 "and searchGraph_nearest_partial (the list-nearest other point survives the forward pass, the <=0 -> EPS protection, the second "
@@ -466,7 +489,7 @@ PROPS = {
                 "tree_init, m down to 1, n <= 200, tie-free and tied rows); the predicate search_graph(index) of DESIGN App. G is evaluated on real "
                 "indexes across n_neighbors, pruning_degree_multiplier, diversify_prob in {1, 0.5, 0}, dense/CSR, tree_init, euclidean / cosine / "
                 "correlation incl. duplicate, parallel and 2-D correlation data (zero and slightly negative lengths)",
-        "note": TB + "the sampled correspondence between the pipeline model and _init_search_graph (scipy glue included: the hand-filled COO matrix "
+        "note": TB + "the translator harness/translate_searchgraph.py (validated on every run by executing the translated degree_prune_internal in the native driver, gk_prune, on every generated CSR and comparing bit for bit with numba: translated-kernel:degree_prune_internal; np.sort itself is not translated: assumed to sort; max_degree = 0 - numba's index -1 wraps - is outside the translation); diversify / diversify_csr are NOT translated (tied by sampled bit-exact comparison only); the sampled correspondence between the pipeline model and _init_search_graph (scipy glue included: the hand-filled COO matrix "
                      "keeps rows in list order, transpose() is a view, maximum / setdiag / eliminate_zeros); the nearest-neighbour theorems assume "
                      "ascending rows (C11) and d(x,x) <= FLOAT32_EPS; clause (ii) - the list-nearest point itself is the edge - needs the tie "
                      "hypothesis htie or (forward probability 1 + symmetric table), shown necessary by searchGraph_nearest_needs_htie (the API "
